@@ -153,6 +153,70 @@ def _worker_row(job):
     return name, key, [int(x) for x in sizes_s.split()], flag
 
 
+def fast_growth(gj, limit):
+    """Exhaustive growth function by a vectorised NumPy BFS over states packed into one int64 (second oracle for rows
+    the reference BFS cannot exhaust within its budget; validated on every use against the reference prefix).
+    Returns the list of layer sizes, or None when the states do not fit one word or more than `limit` states are met."""
+    import numpy as np
+
+    gd = graphs.GDef.from_json(gj)
+    size = len(gd.central)
+    if gd.kind == "perm":
+        base = max(gd.central) + 1
+    else:
+        if gd.modulo <= 0:
+            return None
+        base = gd.modulo
+    if base**size >= 2**62:
+        return None
+    w = [base**i for i in range(size)]
+
+    def unpack(codes):
+        return np.stack([(codes // w[i]) % base for i in range(size)], axis=1)
+
+    def pack(mat):
+        return (mat * np.array(w, dtype=np.int64)).sum(axis=1)
+
+    if gd.kind == "perm":
+        idx = [np.array(p, dtype=np.int64) for p in gd.gens]
+
+        def nbrs(codes):
+            st = unpack(codes)
+            return np.concatenate([pack(st[:, p]) for p in idx])
+
+    else:
+        n, m = gd.n, gd.m
+        mats = [np.array(g, dtype=np.int64).reshape(n, n) for g in gd.gens]
+
+        def nbrs(codes):
+            st = unpack(codes).reshape(-1, n, m)
+            return np.concatenate([pack((np.einsum("ij,bjk->bik", M, st) % base).reshape(-1, size)) for M in mats])
+
+    start = np.array([sum(int(v) * w[i] for i, v in enumerate(gd.central))], dtype=np.int64)
+    seen = start.copy()
+    layer = start
+    sizes = [1]
+    while True:
+        new = np.unique(np.concatenate([nbrs(layer[i : i + 200000]) for i in range(0, len(layer), 200000)]))
+        pos = np.searchsorted(seen, new).clip(max=len(seen) - 1)
+        new = new[seen[pos] != new]
+        if len(new) == 0:
+            return sizes
+        sizes.append(int(len(new)))
+        if sum(sizes) > limit:
+            return None
+        seen = np.union1d(seen, new)
+        layer = new
+
+
+def _worker_fast(job):
+    name, key, gj, limit = job
+    try:
+        return name, key, fast_growth(gj, limit)
+    except Exception as ex:  # pylint: disable=broad-except
+        return name, key, "error: " + repr(ex)[:200]
+
+
 def main():
     ck = Check("C17")
     ck.lean_obligations(['CvProps.C17', 'CvProps.C17b'], THEOREMS)
@@ -206,6 +270,11 @@ def main():
     nproc = max(1, min(14, (os.cpu_count() or 2) - 2))
     with mp.get_context("fork").Pool(nproc, initializer=_worker_init) as pool:
         refs = {(n_, k_): (ref_, fl_) for n_, k_, ref_, fl_ in pool.imap_unordered(_worker_row, jobs_rows, chunksize=1)}
+        # rows the reference BFS could not exhaust but whose claimed total is small enough: exhaustive second oracle
+        fast_limit = 1300000 if not ck.thorough else 8000000
+        stored_of = {(n_, k_): st_ for n_, k_, st_ in rows}
+        fast_jobs = [(n_, k_, gj_, fast_limit) for n_, k_, gj_, _c, _w in jobs_rows if refs.get((n_, k_), (None, ""))[1] != "exhausted" and refs.get((n_, k_), (None, ""))[0] is not None and sum(v for v in stored_of[(n_, k_)] if isinstance(v, int) and v > 0) <= fast_limit]
+        fast = {(n_, k_): f_ for n_, k_, f_ in pool.imap_unordered(_worker_fast, fast_jobs, chunksize=1)}
     for name, key, stored in rows:
         if (name, key) not in defs or ck.enough():
             continue
@@ -231,6 +300,18 @@ def main():
             ck.count("mode:prefix")
             if stored[: len(ref)] != ref:
                 problems.append(f"first {len(ref)} terms differ from the reference BFS prefix")
+            f2 = fast.get((name, key))
+            if isinstance(f2, str):
+                ck.count("second oracle failed (" + f2[:40] + ")")
+            elif f2 is not None:
+                # the NumPy oracle is only believed where it reproduces the proven reference BFS on the common prefix
+                if f2[: len(ref)] != ref[: len(f2)]:
+                    ck.correspondence_break("the vectorised second oracle disagrees with the reference BFS on their common prefix", {"case": case, "reference": ref, "second_oracle": f2})
+                else:
+                    ck.count("mode:prefix + exhaustive second oracle")
+                    if stored != f2 and not problems:
+                        problems.append("differs from the exhaustive growth function (vectorised NumPy BFS; agrees with the proven reference BFS on the first %d layers)" % min(len(ref), len(f2)))
+                        case = dict(case, exhaustive_growth=f2)
         known = None
         if DATASETS[name][1] is not None:
             known = DATASETS[name][1](key)
